@@ -72,7 +72,9 @@ class Own:
        'elem'   element of a container (classified by its type afterwards)
        'unknown:<why>'"""
 
-    def __init__(self, ctx: Ctx, reach: Dict[str, Optional[str]]):
+    def __init__(self, ctx: Ctx, reach: Dict[str, Optional[str]], resolve_self: bool = False, entries: Optional[List[str]] = None):
+        self.resolve_self = resolve_self
+        self.entries = set(entries or [])
         self.ctx = ctx
         self.repo = ctx.repo
         self.ty = ctx.typer
@@ -219,6 +221,23 @@ class Own:
         return {'unknown:expr %s' % type(e).__name__}
 
     def _elem_of(self, f: FuncInfo, container: ast.AST, depth: int) -> Set[str]:
+        # elements of a literal display: the origins of the element expressions
+        lit = container
+        if isinstance(lit, ast.Name):
+            g, defs = self._local_defs(f, lit.id)
+            vals = [n for k, n in defs if k == 'value']
+            if g is not None and len(defs) == 1 and vals and isinstance(vals[0], (ast.Dict, ast.List, ast.Tuple, ast.Set)):
+                lit, f = vals[0], g
+        if isinstance(lit, (ast.Dict, ast.List, ast.Tuple, ast.Set)):
+            elts = lit.values if isinstance(lit, ast.Dict) else lit.elts
+            out0: Set[str] = set()
+            for el in elts:
+                if el is None:
+                    continue
+                eo = self.origin(f, el, depth + 1)
+                out0 |= {('elem-of-fresh' if t == 'fresh' else t) for t in eo}
+            if out0:
+                return out0
         o = self.origin(f, container, depth + 1)
         out: Set[str] = set()
         for t in o:
@@ -405,6 +424,28 @@ class Own:
                 return {'fresh'}          # object under construction
             if g.is_classmethod or g.name == '__new__':
                 return {'shared:class object'}
+            if self.resolve_self:
+                # whose `self` is it?  the receivers at the call sites inside the analysed region
+                out: Set[str] = set()
+                if g.qual in self.entries:
+                    out.add('entry-self')
+                for site in self.cg.callers_of(g.qual):
+                    if not isinstance(site.node, ast.Call) or site.func.qual not in self.reach:
+                        continue
+                    fn = site.node.func
+                    recv = None
+                    if isinstance(fn, ast.Attribute):
+                        rt = self.ty.expr(site.func, fn.value)
+                        if any(t.startswith('T:') for t in rt) and site.node.args:
+                            recv = site.node.args[0]       # Class.method(obj, ...)
+                        elif any(t.startswith('S:') for t in rt):
+                            out |= self._origin_name(site.func, site.func.self_name() or 'self', depth + 1)
+                            continue
+                        else:
+                            recv = fn.value
+                    if recv is not None:
+                        out |= self.origin(site.func, recv, depth + 1)
+                return out or {'self'}
             return {'self'}
         out: Set[str] = set()
         # default value
@@ -495,6 +536,8 @@ class Own:
         ty = self.ty
         recv_t = ty.expr(f, e.value)
         ro = self.origin(f, e.value, depth + 1)
+        if 'entry-self' in ro:
+            return {'entry-self'}       # a field of the object the entry point was called on
         kind = self.class_kind(recv_t)
         shared_reasons = {t for t in ro if t.startswith('shared')}
         if shared_reasons:
@@ -636,8 +679,7 @@ def run_effects(ctx: Ctx) -> RuleResult:
 
 
 ACCEPTS_ENTRIES = ['lark.parsers.lalr_interactive_parser:InteractiveParser.accepts',
-                   'lark.parsers.lalr_interactive_parser:InteractiveParser.choices',
-                   'lark.exceptions:UnexpectedToken.accepts']
+                   'lark.parsers.lalr_interactive_parser:InteractiveParser.choices']
 
 
 def run_accepts_pure(ctx: Ctx) -> RuleResult:
@@ -652,7 +694,7 @@ def _run_effects(ctx: Ctx, rule_id: str, description: str, entries: List[str], f
     repo, ty, cg = ctx.repo, ctx.typer, ctx.cg
     res = RuleResult(rule_id, description)
     reach = cg.reach(entries)
-    own = Own(ctx, reach)
+    own = Own(ctx, reach, resolve_self=not full, entries=entries)
     n_writes = 0
     shared_writes: List[Tuple[Write, str]] = []
     unknown_writes: List[Tuple[Write, str]] = []
@@ -672,6 +714,14 @@ def _run_effects(ctx: Ctx, rule_id: str, description: str, entries: List[str], f
             postlex = sorted(t for t in o if t.startswith('postlex'))
             unknown = sorted(t for t in o if t.startswith('unknown'))
             verdict = None
+            if 'entry-self' in o:
+                res.ob(site, desc + ': modifies the parser it observes', False)
+                res.finding(f, w.stmt, 'accepts()/choices() modify the parser they are called on (%s): a result remembered on the parser is '
+                            'keyed by less than the whole stack, and observing the parser changes it' % desc,
+                            construct='observer-writes:%s %s' % (w.what, norm(w.recv) + (('.' + w.attr) if w.attr and w.what == 'store-attr' else '')),
+                            path=cg.path_to(reach, f.qual))
+                classified['shared'] += 1
+                continue
             fact = RECEIVER_FACTS.get((f.qual, norm(w.recv)))
             if fact is not None:
                 used_facts.add((f.qual, norm(w.recv)))
@@ -878,4 +928,41 @@ def run_postlex_reset(ctx: Ctx) -> RuleResult:
         res.tables[k.qual] = {'reset': sorted(reset), 'written_while_streaming': sorted(written)}
         if len(written) < 1:
             res.notes.append('%s writes no state while streaming' % k.qual)
+    return res
+
+
+LOAD_ENTRIES = ['lark.lark:Lark._load', 'lark.lark:Lark._load_from_dict', 'lark.lark:Lark.load']
+
+
+def run_load_pure(ctx: Ctx) -> RuleResult:
+    """R-LOAD-PURE [C11]: loading does not modify the data it loads from (the dictionaries handed to _load /
+    _load_from_dict are shared: the stand-alone module's DATA/MEMO are module globals used by every instance)."""
+    repo, ty, cg = ctx.repo, ctx.typer, ctx.cg
+    res = RuleResult('R-LOAD-PURE', 'the load path never writes into the data it was given')
+    entries = [q for q in LOAD_ENTRIES if repo.has_func(q)]
+    reach = cg.reach(entries)
+    own = Own(ctx, reach)
+    n = 0
+    for q in sorted(reach):
+        f = repo.functions[q]
+        if f.module.name not in ('lark.lark', 'lark.utils', 'lark.parser_frontends', 'lark.parsers.lalr_parser',
+                                 'lark.parsers.lalr_analysis', 'lark.common', 'lark.lexer', 'lark.grammar'):
+            continue
+        for w in writes_of(f):
+            if w.what == 'aug' and isinstance(w.recv, ast.Name):
+                continue
+            n += 1
+            o = own.origin(f, w.recv)
+            site = '%s %s' % (f.loc(w.stmt), f.qual)
+            bad = 'user' in o and not (o & {'self'})
+            # `self` of the entry methods is the instance being loaded: not input data
+            if isinstance(w.recv, ast.Name) and w.recv.id == f.self_name():
+                bad = False
+            res.ob(site, '%s %s: receiver is not the caller\'s data (origin %s)' % (w.what, norm(w.recv), sorted(o)), not bad)
+            if bad:
+                res.finding(f, w.stmt, 'the load path modifies %s, which is (part of) the data it was asked to load: the stand-alone '
+                            'module\'s DATA/MEMO and a caller\'s dictionary are shared by later loads, which then inherit this '
+                            'instance\'s options' % norm(w.recv), construct='writes-input:%s %s' % (w.what, norm(w.recv)),
+                            path=cg.path_to(reach, f.qual))
+    res.require_instances(n, 15, 'writes on the load path')
     return res
